@@ -56,6 +56,42 @@ static void run_case(CaseCtx& c)
     ps.describe(c.obs.params);
     c.obs.params.b("DirBC_Interior", dirbc).b("dense", dense).i("threads", threads).b("large", large);
 
+    // recorded witness of a known finding (fixed input read from /verif/findings): replaces the generated input
+    const std::string witness = c.arg("witness", "");
+    if (!witness.empty()) {
+        FILE* fp = fopen(witness.c_str(), "r");
+        if (!fp)
+            throw std::runtime_error("cannot open witness file " + witness);
+        char line[256];
+        if (!fgets(line, sizeof line, fp))
+            throw std::runtime_error("witness file empty");
+        int nrad = 0, nang = 0, has_split = 0, db = 0;
+        double split = 0;
+        if (fscanf(fp, " radii %d", &nrad) != 1)
+            throw std::runtime_error("witness: radii");
+        gs.radii.resize(nrad);
+        for (auto& v : gs.radii)
+            if (fscanf(fp, "%lf", &v) != 1)
+                throw std::runtime_error("witness: radius value");
+        if (fscanf(fp, " angles %d", &nang) != 1)
+            throw std::runtime_error("witness: angles");
+        gs.angles.resize(nang);
+        for (auto& v : gs.angles)
+            if (fscanf(fp, "%lf", &v) != 1)
+                throw std::runtime_error("witness: angle value");
+        if (fscanf(fp, " params %lf %d %d %d %d %lf %lf %lf %lf %d", &split, &has_split, &ps.geom, &ps.prob, &ps.prof, &ps.Rmax, &ps.p1, &ps.p2, &ps.alpha_jump, &db) != 10)
+            throw std::runtime_error("witness: params");
+        fclose(fp);
+        gs.split = has_split ? std::optional<double>(split) : std::nullopt;
+        gs.radial_kind = "witness";
+        gs.angular_kind = "witness";
+        gs.split_kind = has_split ? "explicit" : "auto";
+        ps.mirror = false;
+        dirbc = db != 0;
+        dense = false;
+        threads = 1;
+        c.obs.params.str("witness", witness);
+    }
     ProblemObjs po(ps);
     PolarGrid grid = gs.make();
     const int n = grid.numberOfNodes(), nr = grid.nr(), nt = grid.ntheta();
